@@ -98,9 +98,9 @@ func TestFixDemoFiltersApplyToMetricName_DestinationFilter(t *testing.T) {
 	}
 	defer rFirst.Shutdown()
 
-	rFirst.Dispatch([]byte("host5.cpu 1 1600000000"))  // -> dFive
-	rFirst.Dispatch([]byte("host1.cpu 5 1600000000"))  // -> dRest (the 5 is the value)
-	rFirst.Dispatch([]byte("host2.cpu 1 1500000000"))  // -> dRest (the 5 is in the timestamp)
+	rFirst.Dispatch([]byte("host5.cpu 1 1600000000")) // -> dFive
+	rFirst.Dispatch([]byte("host1.cpu 5 1600000000")) // -> dRest (the 5 is the value)
+	rFirst.Dispatch([]byte("host2.cpu 1 1500000000")) // -> dRest (the 5 is in the timestamp)
 	nFive, nRest := fixDemoAccepted(dFive), fixDemoAccepted(dRest)
 	if nFive != 1 || nRest != 2 {
 		t.Errorf("sendFirstMatch: destination with sub=5 should have accepted 1 metric and the catch-all 2; got %d and %d", nFive, nRest)
